@@ -107,7 +107,10 @@ def bathymetry(sc) -> np.ndarray:
         )
     else:
         raise ValueError(kind)
-    return np.maximum(h, float(b.get("hmin", 2.0)))
+    h = np.maximum(h, float(b.get("hmin", 2.0)))
+    if sc["grid"].get("h_store", "f8") in ("i4", "i2"):
+        h = np.round(h)            # a bathymetry product in whole metres, stored as integers
+    return h
 
 
 def metric(sc) -> tuple[np.ndarray, np.ndarray]:
